@@ -36,6 +36,18 @@ def check(run, repo, world):
         "generator-close (driver abort) edges are out of scope: the "
         "property injects answers, not aborts"]
     mod = repo.mod(LOC)
+    # no memory between runs (a cached last accessible location would also
+    # skip the read that loads DTR1 with the bank number)
+    from ..seq import check_stateless
+    from ..front import ClassInfo as _CI
+    _named = []
+    for _qn in (LOC + ".MemoryBank", LOC + ".MemoryValue"):
+        _k = world.cls(_qn)
+        for _sub in [_k] + [x for x in world.class_order
+                            if _k in x.mro and x is not _k]:
+            for _nm, (_kind, _f) in _sub.methods.items():
+                _named.append(("%s.%s" % (_sub.qname, _nm), _f))
+    check_stateless(run, "R-MEM-STATELESS", mod, _named, 6)
     sel = selectors(run, repo, world)
 
     # ---- read_raw -----------------------------------------------------------
